@@ -1,18 +1,548 @@
-//! C14 — not built yet (stub).
+//! C14 — a file written with a password is an ECMA-376 agile-encryption compound file that an independent
+//! implementation of MS-OFFCRYPTO decrypts, with that password only, to exactly the unencrypted package;
+//! verifier and data-integrity HMAC verify; declared length = package length; random material is fresh.
 use crate::common::*;
+use crate::e1::*;
 use crate::pool::*;
-use serde_json::Value;
+use serde_json::{json, Value};
+use std::path::Path;
+
+#[path = "c14_util.rs"]
+pub mod util;
+#[path = "c14_agile.rs"]
+mod agile;
+
+use util::*;
 
 pub fn entry() -> crate::Entry {
     crate::Entry { id: "C14", run, space, replay }
 }
-pub fn space(_tier: Tier, _id: &str) -> Option<Box<dyn Space>> {
-    None
+
+const PROP: &str = "C14";
+
+// -------------------------------------------------------------------------------------------------
+// alphabets
+
+const BASE_SIZES: [usize; 13] = [1000, 0, 1, 15, 16, 17, 4095, 4096, 4097, 8191, 8192, 8193, 12288];
+
+fn thorough_sizes() -> Vec<usize> {
+    let mut v: Vec<usize> = vec![1000];
+    v.extend(0..=48);
+    v.extend(4064..=4128);
+    v.extend(8176..=8208);
+    v.extend([12287, 12288, 12289, 16383, 16384, 16385, 65535, 65536, 65537, 1048575, 1048576, 1048577]);
+    v
 }
-fn replay(_tier: Tier, _case: &Value) -> Vec<Violation> {
-    vec![]
+
+/// feature tag of a synthetic payload size; None for the baseline (1000: one segment, not block aligned)
+fn size_tag(n: usize) -> Option<&'static str> {
+    if n == 1000 {
+        None
+    } else if n == 0 {
+        Some("size-0")
+    } else if n % 4096 == 0 {
+        Some("size-segment-multiple")
+    } else if n % 4096 == 4095 {
+        Some("size-segment-minus-1")
+    } else if n % 4096 == 1 && n > 1 {
+        Some("size-segment-plus-1")
+    } else if n < 16 {
+        Some("size-lt-block")
+    } else if n % 16 == 0 {
+        Some(if n < 4096 { "size-block-multiple" } else { "size-block-multiple-multi-segment" })
+    } else if n < 4096 {
+        Some("size-unaligned")
+    } else {
+        Some("size-unaligned-multi-segment")
+    }
 }
-fn run(_ctx: &Ctx) -> i32 {
-    eprintln!("MACHINERY: C14 is not built yet");
-    2
+
+/// Deterministic, non-periodic-in-16 payload whose last byte is never zero (so that zero padding and the
+/// payload can always be told apart).
+fn synthetic(n: usize) -> Vec<u8> {
+    let mut v: Vec<u8> = (0..n).map(|k| ((k.wrapping_mul(167).wrapping_add(13)) ^ ((k >> 8).wrapping_mul(31)) ^ (k >> 12)) as u8).collect();
+    if let Some(l) = v.last_mut() {
+        if *l == 0 {
+            *l = 0xa5;
+        }
+    }
+    v
+}
+
+fn build_book() -> umya_spreadsheet::Spreadsheet {
+    let mut book = umya_spreadsheet::new_file();
+    {
+        let ws = book.get_sheet_mut(&0).expect("sheet 0");
+        ws.get_cell_mut("A1").set_value("hello");
+        ws.get_cell_mut("B2").set_value_number(42.5);
+        ws.get_cell_mut("C3").set_value("密码 🔑");
+        ws.get_cell_mut("D4").set_formula("SUM(B2:B2)");
+    }
+    let _ = book.new_sheet("Second");
+    book.get_sheet_mut(&1).expect("sheet 1").get_cell_mut("A1").set_value_bool(true);
+    book
+}
+
+#[derive(Clone, Copy, PartialEq, Eq, Debug)]
+enum EntryPoint {
+    SetPassword,
+    Write,
+    WriteLight,
+}
+impl EntryPoint {
+    fn name(&self) -> &'static str {
+        match self {
+            EntryPoint::SetPassword => "set_password",
+            EntryPoint::Write => "write_with_password",
+            EntryPoint::WriteLight => "write_with_password_light",
+        }
+    }
+}
+
+#[derive(Clone, Copy, PartialEq, Eq, Debug)]
+enum Payload {
+    Synthetic(usize),
+    /// the package write_writer produces for build_book()
+    RealStd,
+    /// the package write_writer_light produces for build_book()
+    RealLight,
+}
+
+#[derive(Clone, Debug)]
+struct Case {
+    entry: EntryPoint,
+    pw: Pw,
+    payload: Payload,
+}
+
+impl Case {
+    fn tags(&self) -> Vec<String> {
+        let mut t: Vec<String> = vec![];
+        match self.entry {
+            EntryPoint::SetPassword => {}
+            EntryPoint::Write => t.push("entry-write_with_password".into()),
+            EntryPoint::WriteLight => t.push("entry-write_with_password_light".into()),
+        }
+        if let Some(p) = self.pw.tag {
+            t.push(p.into());
+        }
+        match (self.entry, self.payload) {
+            (EntryPoint::SetPassword, Payload::Synthetic(n)) => {
+                if let Some(s) = size_tag(n) {
+                    t.push(s.into());
+                }
+            }
+            (EntryPoint::SetPassword, Payload::RealStd) => t.push("payload-real-package".into()),
+            (EntryPoint::SetPassword, Payload::RealLight) => t.push("payload-real-package-light".into()),
+            _ => {}
+        }
+        if t.is_empty() {
+            t.push("baseline".into());
+        }
+        t
+    }
+    fn json(&self) -> Value {
+        json!({"entry": self.entry.name(), "password": self.pw.text, "password_utf16_units": self.pw.text.encode_utf16().count(),
+               "payload": match self.payload { Payload::Synthetic(n) => json!({"synthetic_bytes": n}), Payload::RealStd => json!("package of write_writer(build_book())"), Payload::RealLight => json!("package of write_writer_light(build_book())") }})
+    }
+}
+
+fn passwords(tier: Tier) -> Vec<Pw> {
+    let mut v = base_passwords();
+    if tier == Tier::Thorough {
+        v.extend(extra_passwords());
+    }
+    v
+}
+
+fn sizes(tier: Tier) -> Vec<usize> {
+    if tier == Tier::Thorough {
+        thorough_sizes()
+    } else {
+        BASE_SIZES.to_vec()
+    }
+}
+
+/// simplest first: baseline password over all sizes, then every password over all sizes; then the real packages.
+fn cases(tier: Tier) -> Vec<Case> {
+    let mut v = vec![];
+    for pw in passwords(tier) {
+        for n in sizes(tier) {
+            v.push(Case { entry: EntryPoint::SetPassword, pw: pw.clone(), payload: Payload::Synthetic(n) });
+        }
+    }
+    for pw in passwords(tier) {
+        v.push(Case { entry: EntryPoint::SetPassword, pw: pw.clone(), payload: Payload::RealStd });
+        v.push(Case { entry: EntryPoint::SetPassword, pw: pw.clone(), payload: Payload::RealLight });
+        v.push(Case { entry: EntryPoint::Write, pw: pw.clone(), payload: Payload::RealStd });
+        v.push(Case { entry: EntryPoint::WriteLight, pw: pw.clone(), payload: Payload::RealLight });
+    }
+    v
+}
+
+// -------------------------------------------------------------------------------------------------
+
+fn guarded<T, F: FnOnce() -> T>(f: F) -> Result<T, String> {
+    std::panic::catch_unwind(std::panic::AssertUnwindSafe(f)).map_err(|e| panic_msg(&e))
+}
+
+/// (name, inflated bytes) of every zip part, in archive order; None if not a readable zip.
+pub fn zip_parts(bytes: &[u8]) -> Option<Vec<(String, Vec<u8>)>> {
+    use std::io::Read;
+    let mut z = zip::ZipArchive::new(std::io::Cursor::new(bytes)).ok()?;
+    let mut out = vec![];
+    for i in 0..z.len() {
+        let mut f = z.by_index(i).ok()?;
+        let mut v = Vec::new();
+        f.read_to_end(&mut v).ok()?;
+        out.push((f.name().to_string(), v));
+    }
+    Some(out)
+}
+
+struct Material {
+    key_salt: Vec<u8>,
+    package_salt: Vec<u8>,
+    verifier_input: Vec<u8>,
+    package_key: Vec<u8>,
+    hmac_key: Vec<u8>,
+}
+impl Material {
+    fn fields(&self) -> Vec<(&'static str, &'static str, &Vec<u8>)> {
+        vec![
+            ("random-16", "key-salt", &self.key_salt),
+            ("random-16", "package-salt", &self.package_salt),
+            ("random-16", "verifier-input", &self.verifier_input),
+            ("package-key", "package-key", &self.package_key),
+            ("hmac-key", "hmac-key", &self.hmac_key),
+        ]
+    }
+}
+
+struct Encrypt {
+    tier: Tier,
+    cases: Vec<Case>,
+}
+
+impl Encrypt {
+    /// Oracle for one produced file.  `reference` = the unencrypted package.
+    fn check_file(&self, path: &str, c: &Case, reference: &[u8], run: u32, case: &Value, tags: &[&str], sink: &mut Sink) -> Option<Material> {
+        let mut case = case.clone();
+        case["run"] = json!(run);
+        let push = |sink: &mut Sink, clause: &str, symptom: &str, detail: String| {
+            sink.violations.push(Violation::new(clause, symptom, tags, case.clone(), format!("run {}: {}", run, detail)));
+        };
+        macro_rules! tryf {
+            ($e:expr) => {
+                match $e {
+                    Ok(x) => x,
+                    Err(f) => {
+                        push(sink, f.clause, &f.symptom, f.detail);
+                        return None;
+                    }
+                }
+            };
+        }
+        // container + descriptor
+        sink.evaluations += 1;
+        let cont = tryf!(agile::open_container(path));
+        let info = tryf!(agile::parse_info(&cont.info));
+        // right password: verifier
+        sink.evaluations += 1;
+        sink.beat.note(&format!("C14 oracle: key derivation, {}", path));
+        let spun = agile::spun(&info, &c.pw.text);
+        let (vin, ok) = tryf!(agile::verifier(&info, &spun));
+        if !ok {
+            push(sink, "verifier", "right-password-rejected", format!("H(decrypted verifierHashInput) != decrypted verifierHashValue for the password the file was written with ({} UTF-16 units)", c.pw.text.encode_utf16().count()));
+        }
+        // wrong passwords
+        for w in wrong_passwords(&c.pw.text) {
+            sink.evaluations += 1;
+            sink.beat.note("C14 oracle: wrong password");
+            let sw = agile::spun(&info, &w);
+            match agile::verifier(&info, &sw) {
+                Ok((_, true)) => push(sink, "wrong-password", "wrong-password-accepted", format!("the verifier accepts {:?} although the file was written with {:?}", w, c.pw.text)),
+                _ => {}
+            }
+        }
+        // package key, package
+        let key = tryf!(agile::package_key(&info, &spun));
+        let pk = tryf!(agile::decrypt_package(&info, &key, &cont.package));
+        sink.evaluations += 1;
+        let want_len = reference.len() as u64;
+        let mut plain: &[u8] = &pk.padded;
+        if pk.declared != want_len {
+            let padded16 = (want_len + 15) / 16 * 16;
+            let sym = if pk.declared == padded16 {
+                "length-prefix-is-padded-length"
+            } else if pk.declared == cont.package.len() as u64 {
+                "length-prefix-is-stream-length"
+            } else {
+                "length-prefix-wrong"
+            };
+            push(sink, "length", sym, format!("EncryptedPackage declares {} bytes, the package has {}", pk.declared, want_len));
+        }
+        if pk.declared > pk.padded.len() as u64 {
+            push(sink, "length", "stream-shorter-than-declared", format!("declared {} bytes but only {} encrypted bytes follow", pk.declared, pk.padded.len()));
+        } else {
+            plain = &pk.padded[..pk.declared as usize];
+        }
+        // plaintext
+        sink.evaluations += 1;
+        sink.obs(&format!("{}|{}|{}|{:016x}", c.entry.name(), c.pw.text, pk.declared, fnv(plain)));
+        if plain != reference {
+            // the statement speaks of the bytes of the package; for a real workbook accept the identical parts if the
+            // writer itself is not byte-deterministic (never observed; counted)
+            let mut partwise = false;
+            if c.entry != EntryPoint::SetPassword {
+                if let (Some(a), Some(b)) = (zip_parts(plain), zip_parts(reference)) {
+                    partwise = a == b;
+                }
+            }
+            if partwise {
+                sink.count("real-package-equal-partwise-only", 1);
+            } else {
+                let common = plain.iter().zip(reference.iter()).take_while(|(a, b)| a == b).count();
+                let sym = if plain.len() != reference.len() && common == plain.len().min(reference.len()) {
+                    "plaintext-length-differs-only"
+                } else if common < 16 {
+                    "plaintext-differs-from-first-block"
+                } else if common < 4096 {
+                    "plaintext-differs-inside-first-segment"
+                } else if common % 4096 < 16 {
+                    "plaintext-differs-from-a-later-segment-start"
+                } else {
+                    "plaintext-differs-inside-a-later-segment"
+                };
+                let mut parts = String::new();
+                if c.entry != EntryPoint::SetPassword {
+                    if let (Some(a), Some(b)) = (zip_parts(plain), zip_parts(reference)) {
+                        for ((na, da), (nb, db)) in a.iter().zip(b.iter()) {
+                            if na != nb || da != db {
+                                let k = da.iter().zip(db.iter()).take_while(|(x, y)| x == y).count();
+                                parts = format!("; first differing part {:?}/{:?} at {}: got ...{:?} want ...{:?}", na, nb, k, String::from_utf8_lossy(&da[k.saturating_sub(40)..(k + 60).min(da.len())]), String::from_utf8_lossy(&db[k.saturating_sub(40)..(k + 60).min(db.len())]));
+                                break;
+                            }
+                        }
+                    }
+                }
+                push(sink, "plaintext", sym, format!("decrypted {} bytes, package {} bytes, first difference at offset {}{}", plain.len(), reference.len(), common, parts));
+            }
+        }
+        // integrity
+        sink.evaluations += 1;
+        let integ = tryf!(agile::integrity(&info, &key, &cont.package, plain));
+        if !integ.ok {
+            push(sink, "integrity", integ.diagnosis, "HMAC over the whole EncryptedPackage stream (length prefix included) with the decrypted HMAC key != decrypted encryptedHmacValue".to_string());
+        }
+        Some(Material { key_salt: info.pw.salt.clone(), package_salt: info.key_data.salt.clone(), verifier_input: vin, package_key: key, hmac_key: integ.hmac_key })
+    }
+}
+
+impl Space for Encrypt {
+    fn len(&self) -> u64 {
+        self.cases.len() as u64
+    }
+    fn describe(&self, i: u64) -> Value {
+        self.cases[i as usize].json()
+    }
+    fn tags(&self, i: u64) -> Vec<String> {
+        self.cases[i as usize].tags()
+    }
+    fn run(&self, i: u64, sink: &mut Sink) {
+        let c = self.cases[i as usize].clone();
+        let tags_owned = c.tags();
+        let tags: Vec<&str> = tags_owned.iter().map(|s| s.as_str()).collect();
+        let case = c.json();
+        clear_record(PROP, self.tier, i);
+        let dir = format!("{}/{}-{}", work_dir(PROP), self.tier.name(), i);
+        let _ = std::fs::remove_dir_all(&dir);
+        let _ = std::fs::create_dir_all(&dir);
+        let mut mats: Vec<Material> = vec![];
+        for run in 0..2u32 {
+            sink.beat.note(&format!("C14 case {} run {}: {}", i, run, c.entry.name()));
+            let out = format!("{}/out{}.xlsx", dir, run);
+            let pw = c.pw.text.clone();
+            // reference package + call
+            let (reference, res): (Vec<u8>, Result<Result<(), String>, String>) = match c.entry {
+                EntryPoint::SetPassword => {
+                    let payload = match c.payload {
+                        Payload::Synthetic(n) => Ok(synthetic(n)),
+                        Payload::RealStd => crate::dump::save_bytes(&build_book(), false),
+                        Payload::RealLight => crate::dump::save_bytes(&build_book(), true),
+                    };
+                    let payload = match payload {
+                        Ok(p) => p,
+                        Err(e) => {
+                            // saving the plain workbook is not this property's subject
+                            sink.count("reference-save-failed", 1);
+                            sink.violations.push(Violation::new("entry", "reference-save-failed", &tags, case.clone(), e));
+                            break;
+                        }
+                    };
+                    let inp = format!("{}/in{}.bin", dir, run);
+                    if let Err(e) = std::fs::write(&inp, &payload) {
+                        eprintln!("MACHINERY: cannot write {}: {}", inp, e);
+                        std::process::exit(2);
+                    }
+                    let (a, b) = (inp.clone(), out.clone());
+                    let r = guarded(move || umya_spreadsheet::writer::xlsx::set_password(Path::new(&a), Path::new(&b), &pw).map_err(|e| format!("{:?}", e)));
+                    (payload, r)
+                }
+                EntryPoint::Write | EntryPoint::WriteLight => {
+                    let light = c.entry == EntryPoint::WriteLight;
+                    // reference from a separate, identically built workbook: a second save of the SAME object differs in
+                    // sharedStrings.xml count= (shared-string table state, the subject of C12, not of this property)
+                    let book = build_book();
+                    let reference = match crate::dump::save_bytes(&build_book(), light) {
+                        Ok(p) => p,
+                        Err(e) => {
+                            sink.count("reference-save-failed", 1);
+                            sink.violations.push(Violation::new("entry", "reference-save-failed", &tags, case.clone(), e));
+                            break;
+                        }
+                    };
+                    let b = out.clone();
+                    let r = guarded(move || {
+                        let r = if light { umya_spreadsheet::writer::xlsx::write_with_password_light(&book, Path::new(&b), &pw) } else { umya_spreadsheet::writer::xlsx::write_with_password(&book, Path::new(&b), &pw) };
+                        r.map_err(|e| format!("{:?}", e))
+                    });
+                    (reference, r)
+                }
+            };
+            sink.evaluations += 1;
+            match res {
+                Err(m) => {
+                    sink.violations.push(Violation::new("entry", &format!("panic:{}", panic_class(&m)), &tags, case.clone(), format!("run {}: {} panicked: {}", run, c.entry.name(), m)));
+                    continue;
+                }
+                Ok(Err(e)) => {
+                    sink.violations.push(Violation::new("entry", "call-failed", &tags, case.clone(), format!("run {}: {} returned {}", run, c.entry.name(), e)));
+                    continue;
+                }
+                Ok(Ok(())) => {}
+            }
+            if c.entry != EntryPoint::SetPassword && Path::new(&format!("{}tmp", out)).exists() {
+                sink.count("temp-file-left-behind", 1);
+            }
+            if let Some(m) = self.check_file(&out, &c, &reference, run, &case, &tags, sink) {
+                mats.push(m);
+            }
+        }
+        // freshness inside the case
+        let mut items = vec![];
+        for (r, m) in mats.iter().enumerate() {
+            let f = m.fields();
+            for (pool, name, v) in &f {
+                items.push((pool.to_string(), name.to_string(), r as u32, hex(v)));
+            }
+            // three 16-byte values of one file
+            sink.evaluations += 1;
+            for a in 0..3 {
+                for b in a + 1..3 {
+                    if f[a].2 == f[b].2 {
+                        sink.violations.push(Violation::new("fresh-within-file", &format!("same-value:{}={}", f[a].1, f[b].1), &tags, case.clone(), format!("run {}: {} and {} are both {}", r, f[a].1, f[b].1, hex(f[a].2))));
+                    }
+                }
+            }
+        }
+        if mats.len() == 2 {
+            let (f0, f1) = (mats[0].fields(), mats[1].fields());
+            for k in 0..f0.len() {
+                sink.evaluations += 1;
+                if f0[k].2 == f1[k].2 {
+                    sink.violations.push(Violation::new("fresh-between-saves", &format!("repeated:{}", f0[k].1), &tags, case.clone(), format!("two saves of the same input produced the same {}: {}", f0[k].1, hex(f0[k].2))));
+                }
+            }
+        }
+        write_record(PROP, self.tier, i, &items);
+        let _ = std::fs::remove_dir_all(&dir);
+    }
+}
+
+// -------------------------------------------------------------------------------------------------
+/// One case, run after `encrypt`: all random material observed in this run (read from the records the cases left
+/// under .work/C14/rand) is pairwise distinct within its pool.
+struct Fresh {
+    tier: Tier,
+    n: u64,
+}
+impl Space for Fresh {
+    fn len(&self) -> u64 {
+        1
+    }
+    fn describe(&self, _i: u64) -> Value {
+        json!({"kind": "freshness-across-run", "records": self.n, "note": "reads the records written by the cases of space `encrypt` in the same run (replay re-reads what is on disk)"})
+    }
+    fn tags(&self, _i: u64) -> Vec<String> {
+        vec!["freshness".into()]
+    }
+    fn run(&self, _i: u64, sink: &mut Sink) {
+        let f = check_freshness(PROP, self.tier, self.n);
+        sink.count("freshness-records-read", f.records_read);
+        sink.count("freshness-records-missing", f.records_missing);
+        sink.count("freshness-values-compared", f.values);
+        sink.evaluations += f.values;
+        for h in &f.all_hex {
+            sink.obs(h);
+        }
+        for (pool, fa, wa, fb, wb, hx) in f.repeats {
+            let sym = if fa == fb { format!("repeated:{}", fa) } else { format!("same-value:{}={}", fa.clone().min(fb.clone()), fa.clone().max(fb.clone())) };
+            sink.violations.push(Violation::new("fresh-across-run", &sym, &["freshness"], self.describe(0), format!("pool {}: {} of {} equals {} of {}: {}", pool, fa, wa, fb, wb, hx)));
+        }
+    }
+}
+
+// -------------------------------------------------------------------------------------------------
+pub fn space(tier: Tier, id: &str) -> Option<Box<dyn Space>> {
+    match id {
+        "encrypt" => Some(Box::new(Encrypt { tier, cases: cases(tier) })),
+        "freshness" => Some(Box::new(Fresh { tier, n: cases(tier).len() as u64 })),
+        _ => None,
+    }
+}
+
+fn replay(tier: Tier, case: &Value) -> Vec<Violation> {
+    replay_e1(space(tier, case["_space"].as_str().unwrap_or("")), case)
+}
+
+fn run(ctx: &Ctx) -> i32 {
+    if let Err(e) = agile::self_test() {
+        eprintln!("MACHINERY: C14 oracle self-test failed: {}", e);
+        return 2;
+    }
+    let ids = ["encrypt", "freshness"];
+    let spaces = ids.iter().map(|id| (*id, space(ctx.tier, id).unwrap())).collect();
+    let cs = cases(ctx.tier);
+    let pws = passwords(ctx.tier);
+    let szs = sizes(ctx.tier);
+    let real = [crate::dump::save_bytes(&build_book(), false).map(|b| b.len()).unwrap_or(0), crate::dump::save_bytes(&build_book(), true).map(|b| b.len()).unwrap_or(0)];
+    run_e1(
+        ctx,
+        E1Spec {
+            spaces,
+            cfg: PoolCfg { chunk: 1, case_timeout: std::time::Duration::from_secs(120), ..Default::default() },
+            level: "exploration",
+            rule: "full product password alphabet x synthetic payload sizes through writer::xlsx::set_password (file to file), plus every password x {real package, real light package} through set_password and through write_with_password / write_with_password_light on the workbook itself; every case performs the save twice. Each produced file is opened by the harness's own MS-OFFCRYPTO agile reader (cfb container parser + own descriptor parsing, key derivation, verifier, segment decryption, HMAC); clauses: container, descriptor, verifier (right password), wrong-password (password+'x', empty, password minus last char), length, plaintext, integrity, fresh-within-file, fresh-between-saves; the one-case space `freshness` checks pairwise distinctness of all salts/verifier inputs/package keys/HMAC keys over the whole run. distinct_nontrivial = distinct (entry, password, declared length, hash of decrypted plaintext) observations plus distinct random values seen by `freshness`".into(),
+            alphabets: json!({
+                "passwords": pws.iter().map(|p| if p.text.chars().count() > 40 { format!("{} chars starting {:?}", p.text.chars().count(), p.text.chars().take(10).collect::<String>()) } else { p.text.clone() }).collect::<Vec<_>>(),
+                "synthetic_sizes": szs,
+                "real_package_bytes": {"write_writer": real[0], "write_writer_light": real[1]},
+                "entry_points": ["set_password", "write_with_password", "write_with_password_light"],
+                "saves_per_case": 2,
+                "wrong_passwords_per_save": "password+'x'; '' if password non-empty; password minus its last char if >= 2 chars",
+            }),
+            bounds: json!({"cases": cs.len(), "max_password_chars": 255, "max_payload_bytes": szs.iter().max(), "spin_count": "as declared in the file (100000)"}),
+            exhaustive: true,
+            caps_hit: vec![],
+            assumptions: vec![
+                "oracle self-test before every run: key derivation, AES-CBC, integrity IVs and HMAC-key decryption reproduce the xlsx-populate interoperability vectors (the key-derivation vector was also recomputed with Python hashlib)".into(),
+                "trusted base: cfb crate (compound-file parsing), quick-xml (tokenising), RustCrypto aes/cbc/sha2/hmac/base64 as primitives".into(),
+                "freshness: only distinctness of the random values over the run is decided; a predictable generator would pass (getrandom is not behind a seam)".into(),
+                "the reader accepts AES-128/192/256-CBC with SHA-256/384/512 as declared by the descriptor; other declared algorithms are reported as unsupported".into(),
+                "the unencrypted package of write_with_password(_light) is taken to be what write_writer(_light) yields for a separate, identically constructed workbook (a second save of the same object differs in sharedStrings count=, which is C12's subject)".into(),
+            ],
+            min_distinct: cs.len() as u64,
+        },
+    )
 }
